@@ -9,6 +9,7 @@ from fractions import Fraction
 
 from harness import common as C
 from harness import fw
+from harness import c02_fngen as FG
 from harness import pyast_wire as W
 
 META = {
@@ -550,6 +551,24 @@ FIXED_PROGRAMS = [
     [("def", "f", ["p"], [("return", None)]), ("stmt", ("assign", "a", "f(1)"))],
     [("def", "f", ["p"], [("return", "'x'"), ("return", "1")])],
     [("def", "f", ["p"], [("return", "p")]), ("stmt", ("assign", "a", "f(1, 2)"))],
+    # the witness programs of C02_loop_hoist_stale_table_refuted / C02_loop_hoist_fresh_table / C02_param_relabel_refuted
+    [("stmt", ("assign", "mode", "2")), ("stmt", ("if", [("mode > 1", [("assign", "gain", "1.5")])], [("assign", "gain", "0.5")])),
+     ("def", "f", ["p"], [("if", [("p > 1", [("assign", "out", "1")])], [("assign", "out", "2")]), ("return", "out")]),
+     ("def", "g", ["p"], [("assign", "k", "0"), ("while", "k < 2", [("assign", "out", "p * 0.5"), ("assign", "k", "k + 1")]), ("return", "out")]),
+     ("stmt", ("assign", "a", "f(3)")), ("stmt", ("assign", "b", "g(3)"))],
+    [("def", "f", ["p"], [("if", [("p > 1", [("assign", "out", "1")])], [("assign", "out", "2")]), ("return", "out")]),
+     ("def", "g", ["p"], [("assign", "k", "0"), ("while", "k < 2", [("assign", "out", "p * 0.5"), ("assign", "k", "k + 1")]), ("return", "out")]),
+     ("stmt", ("assign", "a", "f(3)")), ("stmt", ("assign", "b", "g(3)"))],
+    [("def", "f", ["p"], [("assign", "q", "p * 2"), ("assign", "p", "1"), ("return", "q")]),
+     ("stmt", ("assign", "x", "2.5")), ("stmt", ("assign", "a", "f(x)"))],
+    # the function of C02_function_result_nonvacuous, and differently typed returns under several call signatures
+    [("def", "f", ["count", "limit"], [("if", [("count < 0", [("return", "False")])], None), ("if", [("count >= limit", [("return", "True")])], None),
+                                       ("return", "count + 1")]),
+     ("stmt", ("assign", "a", "f(3, 10)")), ("stmt", ("assign", "x", "2.5")), ("stmt", ("assign", "b", "f(x, 10)")), ("stmt", ("assign", "c", "f(True, 1)"))],
+    [("stmt", ("if", [("1 > 0", [("assign", "g", "1.5")])], [("assign", "g", "0.5")])),
+     ("def", "f", ["v"], [("if", [("v > 1", [("assign", "r", "v * 2")])], [("assign", "r", "v")]), ("return", "r")]),
+     ("stmt", ("assign", "n", "3")), ("stmt", ("assign", "x", "1.25")), ("stmt", ("assign", "a", "f(n)")), ("stmt", ("assign", "b", "f(x)")),
+     ("stmt", ("assign", "s", "'t'")), ("stmt", ("assign", "c", "f(s)"))],
 ]
 
 
@@ -656,6 +675,8 @@ class RunGen:
         self.fresh = 0
         self.mixed = 0            # assignments of a narrower kind into a wider variable
         self.calls = 0
+        self.mixed_ifexp = 0
+        self.augs = 0
         self.used_funcs = set()
 
     def newname(self, prefix="v"):
@@ -679,8 +700,14 @@ class RunGen:
             return f"abs({self.int_e(d - 1, rd)} - 7)"
         if r < 0.75:
             return f"{rng.choice(['min', 'max'])}({self.int_e(d - 1, rd)}, {self.int_e(d - 1, rd)})"
-        if r < 0.87:
+        if r < 0.83:
             return f"({self.int_e(d - 1, rd)} if {self.bool_e(d - 1, rd)} else {self.int_e(d - 1, rd)})"
+        if r < 0.90:                                      # the bool/int join of a conditional expression, both orders
+            a, b = self.bool_e(d - 1, rd), self.int_e(d - 1, rd)
+            if rng.random() < 0.5:
+                a, b = b, a
+            self.mixed_ifexp += 1
+            return f"({a} if {self.bool_e(d - 1, rd)} else {b})"
         return f"int({self.float_e(d - 1, rd)})"
 
     def float_e(self, d, rd):
@@ -788,6 +815,11 @@ class RunGen:
             st["known"].add(x)
             if nested:
                 st["nested_names"].add(x)
+        if (x in st["assigned"] and x in st["label_ok"] and K in ("int", "float") and rng.random() < 0.25):
+            # x op= e keeps the label of x: float op anything numeric is float, int op int/bool is int
+            ek = rng.choice(["int", "bool"] if K == "int" else ["int", "float", "bool"])
+            self.augs += 1
+            return [("aug", x, rng.choice(["+", "-", "*"]), self.expr(ek, rng.choice([0, 1]), rd)), ("write", x)]
         src = None
         if K != "str" and rng.random() < 0.22:
             c = self.call_e(rd, k, exact=(K == k))
@@ -951,6 +983,8 @@ WITNESSES = {
     "F-C02-abs-min-max-float-typed-int": {"body": "x = abs(-2.5)\nmon.write(x)\ny = max(1, 2.5)\nmon.write(y)\n", "loops": 0},
     "F-C02-int-division-typed-int": {"body": "n = 7\nh = n / 2\nmon.write(h)\n", "loops": 0},
     "F-C02-boolop-typed-bool": {"body": "n = 0\nv = n or 5\nmon.write(v)\n", "loops": 0},
+    "F-C02-stale-promotion-type": {"body": "mode = 2\nif mode > 1:\n    gain = 1.5\nelse:\n    gain = 0.5\ndef f(p):\n    if p > 1:\n        out = 1\n    else:\n        out = 2\n    return out\ndef g(p):\n    k = 0\n    while k < 2:\n        out = p * 0.5\n        k = k + 1\n    return out\na = f(3)\nb = g(3)\nmon.write(a)\nmon.write(b)\n", "loops": 0},
+    "F-C02-param-declared-from-last-label": {"body": "def f(p):\n    q = p * 2\n    p = 1\n    return q\nx = 2.5\na = f(x)\nmon.write(a)\n", "loops": 0},
 }
 
 
@@ -988,6 +1022,8 @@ def part_c(ctx, stats):
     stats["value_programs"] = {"programs": n, "by_status": st, "values_compared": values,
                                "assignments_of_a_narrower_kind_into_a_wider_variable": sum(g.mixed for g in gens),
                                "helper_calls": sum(g.calls for g in gens),
+                               "augmented_assignments": sum(g.augs for g in gens),
+                               "bool_int_conditional_expressions": sum(g.mixed_ifexp for g in gens),
                                "programs_with_main_loop": sum(1 for l in loops if l)}
     stats["value_distinct_nontrivial"] = len(nontrivial)
     # known findings: replay every listed witness on the real code
@@ -1001,16 +1037,64 @@ def part_c(ctx, stats):
     return n + values, [srcs[0][len(HEADER):]]
 
 
+# --------------------------------------------------------------------------- part (d): generated helper functions
+def part_d(ctx, stats):
+    """firmware values vs CPython values for programs whose helper functions are GENERATED (harness/c02_fngen.py):
+    differently typed returns on value-dependent paths, branch-/loop-first locals, several call signatures in every
+    order, shared local names, top-level hoists before the defs, helpers calling helpers, str helpers"""
+    rng = ctx.rng
+    n = 700 if ctx.tier == "thorough" else 40
+    FG.validate_fixed()
+    g = FG.FnGen(rng)
+    progs = list(FG.fixed_programs())
+    nfixed = len(progs)
+    for _ in range(n):
+        progs.append(g.program())
+    srcs = [FG.render(HEADER, items) for items, _ in progs]
+    loops = [(rng.choice([1, 2]) if lp else 0) for _, lp in progs]
+    inputs = ["" for _ in progs]
+    res = run_value_pairs(srcs, inputs, loops)
+    st, values, nontrivial, undefined = {}, 0, set(), {}
+    rows = sorted(enumerate(zip(srcs, loops, res)), key=lambda kr: (kr[1][2]["status"] != "DIFF", len(kr[1][0])))
+    for k, (src, l, r) in rows:                              # failing scripts shortest first: the replay is the smallest one
+        st[r["status"]] = st.get(r["status"], 0) + 1
+        case = {"script": src, "input": "", "loops": l}
+        if r["status"] == "DIFF":
+            ctx.fail("a value on the device differs from the value CPython holds (generated helper functions, program inside the guard)",
+                     case, r["py"], {"first_difference": r["diff"], "firmware": r["fw"], "cpp": r["cpp"]}, key="value-diff-fn")
+        elif r["status"] == "nocompile":
+            ctx.fail("accepted script inside the guard does not compile (generated helper functions)", case, "compilable C++", r["log"], key="nocompile-fn")
+        elif r["status"] == "fw-crash":
+            ctx.fail("firmware crashed", case, "rc 0", r, key="fw-crash-fn")
+        elif r["status"] == "rejected":
+            ctx.fail(f"transpiler rejected a program inside the guard ({r['exc']})", case, "accepted", r, key="rejected-fn")
+        elif r["status"] == "py-undefined":
+            undefined[r["exc"]] = undefined.get(r["exc"], 0) + 1
+            if k < nfixed:
+                ctx.disagree("harness self-check: a fixed oracle program of part (d) is not a valid CPython program", src, "runs", r)
+        elif r["status"] == "equal":
+            values += r["n_values"]
+            if r["n_values"] >= 4:
+                nontrivial.add(src)
+    d = dict(g.stats)
+    d.update({"programs": len(progs), "fixed_class_representatives": nfixed, "by_status": st, "values_compared": values,
+              "cpython_raises": undefined, "programs_with_main_loop": sum(1 for l in loops if l)})
+    stats["function_programs"] = d
+    stats["function_distinct_nontrivial"] = len(nontrivial)
+    return len(progs) + values, [srcs[nfixed][len(HEADER):]]
+
+
 def run(ctx: C.Ctx):
     stats = {}
     n = part_a(ctx, stats)
     nb, samples_b = part_b(ctx, stats)
     nc, samples_c = part_c(ctx, stats)
+    nd, samples_d = part_d(ctx, stats)
     ctx.coverage.update({
-        "evaluations": n + nb + nc,
-        "distinct_nontrivial": stats.get("infer_distinct_nontrivial", 0) + stats.get("decl_distinct_nontrivial", 0) + stats.get("value_distinct_nontrivial", 0),
+        "evaluations": n + nb + nc + nd,
+        "distinct_nontrivial": stats.get("infer_distinct_nontrivial", 0) + stats.get("decl_distinct_nontrivial", 0) + stats.get("value_distinct_nontrivial", 0) + stats.get("function_distinct_nontrivial", 0),
         "distribution": stats,
-        "samples": samples_b[:1] + samples_c,
+        "samples": samples_b[:1] + samples_c + samples_d,
         "rule": ("(a) _infer_expr_type: ~115 fixed boundary expressions (every clause of the model, with/without ctx, with generated var_types / "
                  "functions / aliases / device-name sets) + seeded random typed expressions (depth 1-4, all node kinds incl. calls to user functions, "
                  "methods, lists, subscripts, f-strings, unsupported nodes) + the shared Lang generator; compared: label, ValueError, and the MUTATED "
@@ -1023,7 +1107,15 @@ def run(ctx: C.Ctx):
                  "that only ever go down from the declaring kind, at top level, in branches, loops, the main loop, helper parameters via several call "
                  "signatures, helper results joined from differently typed returns, hoisted names) -> firmware under the mock core vs CPython: every "
                  "value written to Serial compared at value level (bool = 0/1, floats to the 2 printed decimals); non-trivial = programs with >= 4 "
-                 "compared values."),
+                 "compared values; (c) now also draws augmented assignments that keep the label and bool/int conditional expressions.  "
+                 "(d) programs with GENERATED helper functions (harness/c02_fngen.py): bodies polymorphic in their parameters, differently typed "
+                 "return expressions (bool/int, bool/float, int/float, all three, str) on value-dependent paths, locals first assigned inside "
+                 "if/elif/else, inside for/while, inside an if inside a loop and a loop inside an if, augmented assignments, helpers calling earlier "
+                 "helpers, local names shared across helpers with different kinds, 2-4 call signatures per helper over int/float/bool(/str) in every "
+                 "order with boundary values (negative, 0, 1, non-integral), results stored in fresh and in wider existing variables, calls at column "
+                 "0 / inside a branch / in the main loop, a top-level if/else hoist and a top-level loop hoist before or after the defs; 3 fixed "
+                 "class representatives run at every seed; an abstract kind interpreter (Checker) keeps every parsed variant inside the guard; "
+                 "same oracle as (c), the shortest failing script is reported first."),
         "guard": ("expressions: Lang/InferGuard.v guard (no string contagion onto a numeric name, numeric operands, `/` and `**` only with a float "
                   "operand, no unary minus on a bool label, and/or only on bool labels, conditional expression with equal or numeric labels, abs/min/max "
                   "on int/bool labels, uniform or numeric list elements, subscripts of list labels, no tuples). programs (theorem): flat_guard = every "
@@ -1031,10 +1123,17 @@ def run(ctx: C.Ctx):
                   "construction of the generator): every label assigned to a name is <= the label of its declaring (first in text order) assignment in "
                   "bool < int < float, String alone; a name whose current label is below its declared one is not read by a right-hand side; names first "
                   "assigned inside a nested block keep one label; helper bodies read only parameters and locals; call arguments are variables or "
-                  "int/bool literals; no `//`, `%`, `**`, int `/` int, str() of a bool (C01's operator/text-form findings)."),
+                  "int/bool literals; no `//`, `%`, `**`, int `/` int, str() of a bool (C01's operator/text-form findings). (d) adds: a parameter is "
+                  "only re-assigned at the kind of its call signature (F-C02-param-declared-from-last-label); names first assigned directly inside a "
+                  "loop body are never names an if/else hoists anywhere in the program (F-C02-stale-promotion-type); function-local names never "
+                  "coincide with globals; return expressions all str or all numeric; a helper that calls another helper shares no local name with it "
+                  "(otherwise the callee variant parsed on demand does not declare its local and the sketch does not compile: C06's subject)."),
         "unmodelled": [
             "calls to user functions from inside function bodies (recursion, helper calling helper: the re-entrant _ensure_function_variant with its "
-            "_refreshing_functions set) - the statement model runs function bodies with the static function table; covered only by oracle (c) (template `twice`)",
+            "_refreshing_functions set) - the statement model runs function bodies with the static function table; covered only by oracles (c) "
+            "(template `twice`) and (d) (generated helpers calling earlier helpers)",
+            "C02_function_result_covers_partial is proved for bodies made of (if-guarded) return statements; returns nested deeper, after assignments "
+            "or inside loops are covered by correspondence (b) and oracle (d)",
             "tuple assignment / swap temporaries, try/except bodies, list variables at statement level (append, element assignment), "
             "function_param_types carried over between re-parses of the same def",
             "_to_c_expr failures (untranslatable right-hand sides abort the parse before typing) - generators only emit translatable expressions",
@@ -1048,6 +1147,7 @@ def run(ctx: C.Ctx):
         "trusted_base": C.COMMON_TRUSTED + [
             "harness/gen/c02_infer.py (regenerates coq/Gen/InferTables.v: _BUILTIN_CALL_RETURN_TYPES, annotation labels; fail-closed)",
             "coq/Lang/PySem.v as the meaning of Python expressions (validated against CPython eval by harness/pysem_check.py)",
+            "harness/c02_fngen.py (generator and the abstract kind interpreter that keeps generated helper programs inside the guard)",
             "harness/pyast_wire.py + label/program codecs in harness/props/c02.py; regex extraction of declaration lines from the emitted sketch (harness/impl/c02_impl.py cpp_decls)",
             "mock Arduino core (mock/) + g++ -O0 as 'the device'; CPython 3.12 + harness/impl/pyrun_impl.py as 'what Python holds'",
             "value-level comparison of Serial lines (same_value_line): bool = 0/1, numbers to 0.0051 when the device prints decimals",
